@@ -704,9 +704,10 @@ func (c *Context) Children() vivid.ActorRefs {
 func (c *Context) removeChild(ref vivid.ActorRef) int {
 	c.childrenLock.Lock()
 	defer c.childrenLock.Unlock()
-	// children 以路径为键：仅当登记的子 Actor 正是该引用（地址与路径均一致）时才移除。
-	// 被监听的其他系统上的 Actor 可能与本地子 Actor 同路径，其死亡通知不应使存活的本地子 Actor 从表中消失
-	if child, ok := c.children[ref.GetPath()]; ok && child.Equals(ref) {
+	// children 以路径为键：仅当登记的子 Actor 正是该引用对象本身时才移除（子 Actor 的死亡通知携带其自身的引用对象）。
+	// 被监听的其他系统上的 Actor 可能与本地子 Actor 同路径；已终止的子 Actor 在其父级处理死亡通知之前即已释放路径，
+	// 父级可能已用同名创建了新的子 Actor——二者的死亡通知都不应使存活的子 Actor 从表中消失
+	if child, ok := c.children[ref.GetPath()]; ok && child == ref {
 		delete(c.children, ref.GetPath())
 	}
 	return len(c.children)
